@@ -330,6 +330,13 @@ func (a *wagg) Reset() {
 // ---------------------------------------------------------------- one schedule
 
 func runSchedule(t *testing.T, tw *trace.Writer, c *scase, idx int, seed int64, res *vh.Result) {
+	defer func() {
+		// goroutines that stay blocked for ever make the bubble panic on exit; the trace written so far is still judged
+		if x := recover(); x != nil {
+			res.Note("bubble left with blocked goroutines: %v", x)
+			res.Hit("goroutines-left-blocked")
+		}
+	}()
 	synctest.Test(t, func(t *testing.T) {
 		rng := vh.NewRng(seed, idx)
 		ctx, cancel := context.WithCancel(context.Background())
